@@ -106,6 +106,14 @@ Definition only_data (l : list rxo) : Prop := Forall (fun r => match r with RDat
 Definition undecoded (pending : option (list Z)) (rx : list rxo) : list Z :=
   match pending with Some r => r | None => [] end ++ rx_stream rx.
 
+(* a user/peer program (list of CompressionModel.op): what the peer has sent and what the user has submitted *)
+Definition rdata (r : rxo) : list Z := match r with RData bs => bs | _ => [] end.
+Definition ops_zs (ops : list op) (zs : list Z) : list Z :=
+  fold_left (fun z o => match o with ORx r => z ++ rdata r | _ => z end) ops zs.
+Definition peer_stream (ops : list op) : list Z := ops_zs ops [].
+Definition enq_stream (ops : list op) : list Z :=
+  concat (map (fun o => match o with OEnq bs => bs | _ => [] end) ops).
+
 (* the "stored" codec's reference decoder is CompressionModel.stored_dec; its flush points: *)
 Definition stored_fp (c : list Z) : Prop := c = [] \/ exists c', c = c' ++ [FLUSH_MARK].
 Definition stored_wf (c : list Z) : Prop := True.
